@@ -100,10 +100,12 @@ def run(repo, chk):
         rs = [m.stmt for m in tb if isinstance(m.stmt, ast.Raise)]
         args_ok = bool(rs) and isinstance(rs[0].exc, ast.Call) and [norm(a) for a in rs[0].exc.args] == [params[1], "self.fn"]
         chk.ob("R16.2", "interpret.Interactor.interact:error-identifies-variable-and-function", args_ok, ia.where, "the error carries the variable name and the function")
-        dominated = all(not g.path_exists(g.entry, s, avoid=[t]) for s in sinks) and bool(sinks)
+        from .shared import marker_free_definitions
+        clean = marker_free_definitions(ia, g, vname)
+        dominated = all(not g.path_exists(g.entry, s, avoid=[t] + clean) for s in sinks) and bool(sinks)
         chk.ob("R16.2", "interpret.Interactor.interact:guard-before-log-trigger-return", dominated, ia.where,
                "every path to log, trigger or return passes the guard" + ("" if dominated else f" -- {[s.text()[:40] for s in sinks if g.path_exists(g.entry, s, avoid=[t])]}"))
-        after_defs = all(not g.path_exists(t, d) for d in defs)
+        after_defs = all(not g.path_exists(t, d) for d in defs) and all(d in clean for d in defs)
         chk.ob("R16.2", "interpret.Interactor.interact:guard-after-last-definition", after_defs, ia.where, "the value is not redefined after the guard (an override that yields ABSENT is caught too)")
     ne = repo.func("transform.PteraNameError.info")
     chk.ob("R16.2", "transform.PteraNameError.info:exposes-recorded-info", norm(returns_of(ne.node)[0].value) == "self.function.__ptera_info__[self.varname]", ne.where,
